@@ -75,9 +75,12 @@ func numBuild(c *numCase) (*numParser, error) {
 		t = reflect.PtrTo(namedNumTypes[c.Kind])
 	}
 	lx := numLexSingle
-	if c.Shape == "joined" {
+	if c.Shape == "joined" || c.Shape == "joinedsp" {
 		tag = "@(Sign Num)"
 		lx = numLexJoined
+	}
+	if c.Shape == "multifirst" || c.Shape == "multilast" {
+		tag = "@Num @Num"
 	}
 	st := reflect.StructOf([]reflect.StructField{{Name: "V", Type: t, Tag: reflect.StructTag(tag)}})
 	p, err := participle.Build[numRoot](participle.Lexer(lx), participle.Elide("WS"), participle.Union[numRootU](reflect.New(st).Interface()))
@@ -147,6 +150,15 @@ func numRun(args []string) error {
 		if c.Variant == "slicegrp" {
 			input = " 7 " + c.S
 			firstOff = 1 // one capture for all elements: its first token
+		}
+		switch c.Shape {
+		case "joinedsp":
+			input = "  " + c.S[:1] + " \t " + c.S[1:] // elided tokens between the sign and the digits
+		case "multifirst":
+			input = "  " + c.S + " 7" // two captures into the same field: the text under test first
+		case "multilast":
+			input = " 7 " + c.S
+			firstOff = 3
 		}
 		out := runGuarded(func() (res string) {
 			defer func() {
